@@ -83,6 +83,7 @@ def describe(body: Any) -> dict[str, Any]:
     elif isinstance(body, ConnectResponse):
         d["ch"] = body.communication_channel
         d["status"] = body.status_code.name
+        d["data_endpoint"] = None if body.data_endpoint.route_back else [body.data_endpoint.ip_addr, body.data_endpoint.port]
     elif isinstance(body, (TunnellingRequest, DeviceConfigurationRequest)):
         d["ch"] = body.communication_channel_id
         d["seq"] = body.sequence_counter
@@ -123,6 +124,8 @@ class Gateway:
         self.n_treq = 0
         self.connects_ok_delivered = 0
         self.open_channel: int | None = None  # channel whose ConnectResponse has been delivered
+        self.data_endpoint_route_back = False
+        self.data_endpoint: tuple[str, int] | None = None  # announced in the last ConnectResponse (UDP)
         loop.on_send = self._on_send
 
     @property
@@ -213,6 +216,8 @@ class Gateway:
         body = frame.body
         info = describe(body)
         info["tr"] = self.tr_index(tr)
+        if addr is not None:
+            info["to"] = list(addr)
         self.note("tx", **info)
         lat = self.latency
         if isinstance(body, ConnectRequest):
@@ -230,7 +235,12 @@ class Gateway:
             self.transport = tr
             self.conn_type = body.cri.connection_type
             tcp = isinstance(tr, FakeStreamTransport)
-            data_endpoint = HPAI(protocol=HostProtocol.IPV4_TCP) if tcp else HPAI(*GATEWAY_ADDR)
+            if tcp:
+                data_endpoint = HPAI(protocol=HostProtocol.IPV4_TCP)
+            else:  # a NAT-aware server answers with the route-back HPAI 0.0.0.0:0
+                # the data endpoint differs from connection to connection (port 3671 / 3672)
+                self.data_endpoint = None if self.data_endpoint_route_back else (GATEWAY_ADDR[0], 3671 + (ch & 1))
+                data_endpoint = HPAI() if self.data_endpoint is None else HPAI(*self.data_endpoint)
             crd = ConnectResponseData(request_type=body.cri.connection_type,
                                       individual_address=IndividualAddress("1.1.9"))
             self.send_body(ConnectResponse(communication_channel=ch, status_code=ErrorCode.E_NO_ERROR,
